@@ -16,7 +16,9 @@ import math
 import os
 import re
 import sys
-from typing import List
+import enum
+from collections import UserString
+from typing import Any, Dict, List, Union
 
 import yaml
 
@@ -82,6 +84,165 @@ _TYPED = [(bool, yatiml.load_function(bool)),
 _LIST_FLOAT = yatiml.load_function(List[float])
 
 
+# ---- positions where classes meet scalars: the type a scalar resolves to
+# decides which candidate takes it, and hooks that read it see what is built
+class Expr(UserString):
+    pass
+
+
+class Mode(enum.Enum):
+    true = 1
+    false = 2
+    auto = 3
+    TRUE = 4
+    n1e5 = 5
+
+
+class Setting:
+    def __init__(self, mode: Mode, gain: int) -> None:
+        self.mode, self.gain = mode, gain
+
+
+class Base9:
+    def __init__(self, name: str) -> None:
+        self.name = name
+
+
+class Tuned(Base9):
+    def __init__(self, name: str, mode: Mode, gain: int) -> None:
+        super().__init__(name)
+        self.mode, self.gain = mode, gain
+
+
+class Switched(Base9):
+    def __init__(self, name: str, mode: bool) -> None:
+        super().__init__(name)
+        self.mode = mode
+
+
+class On:
+    def __init__(self, enabled: bool) -> None:
+        self.enabled = enabled
+
+    @classmethod
+    def _yatiml_recognize(cls, node: yatiml.UnknownNode) -> None:
+        node.require_attribute_value('enabled', True)
+
+
+class Off:
+    def __init__(self, enabled: bool) -> None:
+        self.enabled = enabled
+
+    @classmethod
+    def _yatiml_recognize(cls, node: yatiml.UnknownNode) -> None:
+        node.require_attribute_value('enabled', False)
+
+
+SEEN = []
+
+
+class Probe:
+    """savorize reads the scalar with get_value() before it is built."""
+    def __init__(self, v: Any) -> None:
+        self.v = v
+
+    @classmethod
+    def _yatiml_savorize(cls, node: yatiml.Node) -> None:
+        if node.has_attribute('v') and node.get_attribute('v').is_scalar():
+            try:
+                SEEN.append(node.get_attribute('v').get_value())
+            except Exception as e:      # noqa
+                SEEN.append(e)
+
+
+_U_FLOAT_EXPR = yatiml.load_function(Union[float, Expr], Expr)
+_U_EXPR_FLOAT = yatiml.load_function(Union[Expr, float], Expr)
+_EXPR = yatiml.load_function(Expr)
+_LIST_UFE = yatiml.load_function(List[Union[float, Expr]], Expr)
+_SET_OR_DICT = yatiml.load_function(Union[Setting, Dict[str, bool]],
+                                    Setting, Mode)
+_SIBLINGS = yatiml.load_function(Base9, Tuned, Switched, Mode)
+_ON_OFF = yatiml.load_function(Union[On, Off], On, Off)
+_PROBE = yatiml.load_function(Probe)
+
+
+def _value_text_ok(doc: str, text: str) -> bool:
+    """`doc` is a block mapping whose LAST value is the plain scalar text."""
+    try:
+        root = yaml.compose(doc, Loader=yaml.SafeLoader)
+    except yaml.YAMLError:
+        return False
+    if not isinstance(root, yaml.MappingNode) or not root.value:
+        return False
+    if not all(isinstance(k, yaml.ScalarNode) and isinstance(
+            v, yaml.ScalarNode) for k, v in root.value):
+        return False
+    v = root.value[-1][1]
+    return v.value == text and v.style is None and len(root.value) <= 2
+
+
+def _class_positions_agree(text: str, got) -> bool:
+    bad = []
+
+    def expect(name, fn, want):
+        """want: ('value', predicate) or 'reject'."""
+        try:
+            v = fn()
+        except yatiml.RecognitionError:
+            if want != 'reject':
+                bad.append((name, 'RecognitionError'))
+            return
+        except yaml.YAMLError:
+            return
+        if want == 'reject' or not want[1](v):
+            bad.append((name, repr(v)))
+
+    # a string-like class next to float: what resolves to float is a float
+    if type(got) is float:
+        w = ('value', lambda v: type(v) is float and _same_scalar(v, got))
+        for name, fn in (('Union[float, Expr]', _U_FLOAT_EXPR),
+                         ('Union[Expr, float]', _U_EXPR_FLOAT)):
+            expect(name, lambda fn=fn: fn(text), w)
+        expect('List[Union[float, Expr]]', lambda: _LIST_UFE('- ' + text)[0]
+               if _single_plain_scalar(text) and yaml.safe_load(
+                   '- ' + text) is not None else got, w)
+        expect('Expr', lambda: _EXPR(text), 'reject')
+    elif type(got) is str:
+        w = ('value', lambda v: type(v) is Expr and str(v) == got)
+        expect('Union[float, Expr]', lambda: _U_FLOAT_EXPR(text), w)
+        expect('Expr', lambda: _EXPR(text), w)
+    else:
+        expect('Union[float, Expr]', lambda: _U_FLOAT_EXPR(text), 'reject')
+        expect('Expr', lambda: _EXPR(text), 'reject')
+    # an enum in one candidate, bool in the other, at the same key
+    doc = 'mode: ' + text
+    if _value_text_ok(doc, text):
+        isb = type(got) is bool
+        expect('Union[Setting, Dict[str, bool]]', lambda: _SET_OR_DICT(doc),
+               ('value', lambda v: type(v) is dict and v == {'mode': got}
+                and type(v['mode']) is bool) if isb else 'reject')
+        doc2 = 'name: n\nmode: ' + text
+        expect('Base9 <- Tuned(mode: Mode, gain) | Switched(mode: bool)',
+               lambda: _SIBLINGS(doc2),
+               ('value', lambda v: type(v) is Switched and v.mode is got)
+               if isb else 'reject')
+        # hooks that read the scalar see what is then constructed
+        doc3 = 'enabled: ' + text
+        expect('require_attribute_value(enabled, True/False)',
+               lambda: _ON_OFF(doc3),
+               ('value', lambda v: type(v) is (On if got else Off)
+                and v.enabled is got) if isb else 'reject')
+        if type(got) in (bool, float, int, str) or got is None:
+            del SEEN[:]
+            expect('get_value() in _yatiml_savorize', lambda: _PROBE(
+                'v: ' + text), ('value', lambda v: len(SEEN) == 1 and type(
+                    SEEN[0]) is type(v.v) and _same_scalar(SEEN[0], v.v)
+                    and type(v.v) is type(got) and _same_scalar(v.v, got)))
+    if bad:
+        note(text=text, untyped=repr(got), class_positions_disagree=bad)
+    return not bad
+
+
 def _same_scalar(a, b) -> bool:
     if type(a) is not type(b):
         return False
@@ -113,7 +274,7 @@ def _typed_agree(text: str, got) -> bool:
         ok = True           # '- ' + text is no longer one plain scalar
     if not ok:
         note(text=text, list_of_float='disagrees', untyped=repr(got))
-    return ok
+    return ok and _class_positions_agree(text, got)
 
 
 
